@@ -52,6 +52,9 @@ CHECKS = {
     "C14": dict(level="model_checking", tech="symbolic schedules as C12 with the main thread's stop_all() schedulable at every point",
                 text="After a stop at any point: all threads finished, observers' log == detections of split() on exactly the blocks read, saved wav closed and holding those blocks.",
                 ref="§5 C12-C14", note="Trusted: as C12."),
+    "C15": dict(level="model_checking", tech="symbolic execution + z3: unbounded-LIA formatter kernel, symbolic option wiring against split(), exhaustive end-to-end runs of cmdline.main under the cooperative scheduler",
+                text="Formatter proved for all durations p/q; option values proved to reach split() and the reader unchanged for all rationals; cmdline.main(argv) for 18 argv templates x every activity pattern of 5 (quick) / 7 (thorough) windows: printed lines, files, exit status.",
+                ref="§5 C15", note="Trusted: cooperative scheduler with one fair schedule for the end-to-end part; argparse; real numpy on concrete loud/quiet windows; file/wave stubs."),
     "C16": dict(level="model_checking", tech="symbolic execution + z3 (QF_LIA + byte-segment normalisation): slice semantics for all integers n, a, b",
                 text="Real AudioRegion.__getitem__ and the seconds/milliseconds views for unbounded region length and bounds; time bounds as exact rationals.",
                 ref="§5 C16"),
